@@ -57,4 +57,21 @@ func init() {
 		Technique: "runtime monitoring: differential oracle against an independent RFC 1071 reference, outcome steering and exhaustive single-bit corruption per packet",
 		DesignRef: "DESIGN.md §3 C08",
 	})
+	add(Spec{
+		PropSpec: vlib.PropSpec{
+			ID: "C13", Level: "exploration",
+			Rule: "benign phase: 1..4 datagrams (payload 8..3000, a tier at the 65 515 maximum; header 20..60 bytes with options on first / other fragments; keys that differ only in id or only in src) cut at PRNG 8-byte boundaries into 2..8 (up to 60) fragments built byte-by-byte, fed in order / reversed / permuted with exact duplicates, unfragmented and DF packets mixed in and an optional DiscardOlderThan at a PRNG step; plus ALL permutations of 2..5 (thorough 6) fragments with and without options. Model: per key the set of fragments seen since the last completion/discard; result must be nil until the set is complete, then one datagram with payload == original, MF/offset cleared, Length == 4*IHL+len(Payload), same id/src/dst/proto; pass-through must return the same pointer unchanged. hostile phase: overlapping/conflicting/oversize/undersize/too-many fragments; any returned datagram must consist of bytes some fragment placed at that offset and end where a last fragment ended. v6 phase: valid IPv6 partitions (<= 20 fragments, permuted, duplicates, 1..3 ids interleaved) must return nil until complete and then the original payload and next header. Non-trivial = history with >= 3 arrivals and at least one fragment arriving before a lower-offset one; distinct by history hash.",
+			Assumptions: []string{"fragments are produced by the harness's wire builder and decoded with layers.IPv4.DecodeFromBytes before being fed", "for hostile sets only the 'no invented byte / consistent header' rule is checked; nil or an error is always accepted"},
+			Phases: []vlib.Phase{
+				{Name: "benign", Bin: "vchild", Quick: 16, Thorough: 16},
+				{Name: "hostile", Bin: "vchild", Quick: 16, Thorough: 16},
+				{Name: "v6", Bin: "vchild", Quick: 8, Thorough: 16},
+			},
+			Require: []string{"datagrams_completed", "duplicate_fragments_fed", "histories_out_of_order", "passthrough_packets", "permutations_enumerated", "hostile_fragments_fed", "v6_datagrams_completed", "discards"},
+		},
+		LevelText: "Runtime monitor with a reference placement model per (src,dst,id): the real defragmenters are fed generated benign and hostile fragment histories and every return value is checked against the model. Exploration: histories are sampled (small permutation sets enumerated).",
+		LevelNote: trusted,
+		Technique: "runtime monitoring: reference-model oracle (fragment placement) over generated benign/hostile histories",
+		DesignRef: "DESIGN.md §3 C13",
+	})
 }
